@@ -278,6 +278,11 @@ impl Prop for C04 {
             }
             _ => {
                 let mut inst = gen_instance(rng, &GenOpts { max_vars: 4, max_cons: 2, max_removed: 1, max_degree: 2, deps: false, hints: false });
+                // log_encode allocates fresh IDs above the largest defined one, which cannot work when that is
+                // u64::MAX (ID allocation is C12's subject, not claimed): such instances are not used here
+                while inst.vars.iter().any(|v| v.id == u64::MAX) {
+                    inst = gen_instance(rng, &GenOpts { max_vars: 4, max_cons: 2, max_removed: 1, max_degree: 2, deps: false, hints: false });
+                }
                 // make the first variable an integer with a finite range
                 let lo = rng.range(-3, 2) as f64 + if rng.chance(1, 4) { 0.5 } else { 0.0 };
                 let hi = lo.ceil() + rng.range(0, 9) as f64 + if rng.chance(1, 4) { 0.5 } else { 0.0 };
